@@ -900,6 +900,112 @@ void oracle_substitutions(World& w)
       }
 }
 
+
+// ------------------------------------------------------------------ C13 -----
+void oracle_constants(World& w)
+{
+   auto& L = w.L();
+   struct Row {
+      const char* accessor;
+      const Type* type;
+      const char* spelling;
+   };
+   const Row rows[] = {{"void_type", &L.void_type(), "void"},           {"bool_type", &L.bool_type(), "bool"},
+                       {"char_type", &L.char_type(), "char"},           {"schar_type", &L.schar_type(), "signed char"},
+                       {"uchar_type", &L.uchar_type(), "unsigned char"}, {"wchar_t_type", &L.wchar_t_type(), "wchar_t"},
+                       {"char8_t_type", &L.char8_t_type(), "char8_t"},  {"char16_t_type", &L.char16_t_type(), "char16_t"},
+                       {"char32_t_type", &L.char32_t_type(), "char32_t"}, {"short_type", &L.short_type(), "short"},
+                       {"ushort_type", &L.ushort_type(), "unsigned short"}, {"int_type", &L.int_type(), "int"},
+                       {"uint_type", &L.uint_type(), "unsigned int"},   {"long_type", &L.long_type(), "long"},
+                       {"ulong_type", &L.ulong_type(), "unsigned long"}, {"long_long_type", &L.long_long_type(), "long long"},
+                       {"ulong_long_type", &L.ulong_long_type(), "unsigned long long"}, {"float_type", &L.float_type(), "float"},
+                       {"double_type", &L.double_type(), "double"},     {"long_double_type", &L.long_double_type(), "long double"},
+                       {"ellipsis_type", &L.ellipsis_type(), "..."},    {"typename_type", &L.typename_type(), "typename"},
+                       {"class_type", &L.class_type(), "class"},        {"union_type", &L.union_type(), "union"},
+                       {"enum_type", &L.enum_type(), "enum"},           {"namespace_type", &L.namespace_type(), "namespace"}};
+   constexpr int n = sizeof rows / sizeof rows[0];
+   // a second Lexicon alive at the same time, and a third one created and destroyed meanwhile
+   impl::Lexicon other;
+   const Type* other_types[n];
+   {
+      impl::Lexicon third;
+      (void)third.get_identifier(u8"int");
+   }
+   {
+      const Type* t[] = {&other.void_type(),     &other.bool_type(),      &other.char_type(),       &other.schar_type(),  &other.uchar_type(),  &other.wchar_t_type(), &other.char8_t_type(),
+                         &other.char16_t_type(), &other.char32_t_type(),  &other.short_type(),      &other.ushort_type(), &other.int_type(),    &other.uint_type(),    &other.long_type(),
+                         &other.ulong_type(),    &other.long_long_type(), &other.ulong_long_type(), &other.float_type(),  &other.double_type(), &other.long_double_type(),
+                         &other.ellipsis_type(), &other.typename_type(),  &other.class_type(),      &other.union_type(),  &other.enum_type(),   &other.namespace_type()};
+      for (int i = 0; i < n; ++i) other_types[i] = t[i];
+   }
+   for (int i = 0; i < n; ++i) {
+      const Row& r = rows[i];
+      const std::string acc = r.accessor;
+      for (int j = 0; j < i; ++j)
+         if (rows[j].type == r.type) w.findings.fail("C13:not-distinct:" + acc, std::string("same node as ") + rows[j].accessor);
+      if (other_types[i] != r.type) w.findings.fail("C13:not-process-wide:" + acc, "two Lexicon instances return different nodes");
+      auto id = util::view<Identifier>(r.type->name());
+      if (!id) w.findings.fail("C13:name-not-identifier:" + acc, "name() is not an Identifier");
+      else if (chars(id->string()) != r.spelling) w.findings.fail("C13:spelling:" + acc, "spelled " + printable(chars(id->string())) + ", documented " + r.spelling);
+      auto at = util::view<As_type>(*r.type);
+      if (!at) w.findings.fail("C13:not-as-type:" + acc, "a built-in type is not an As_type node");
+      else {
+         if (!physically_same(at->expr(), *r.type)) w.findings.fail("C13:not-self-describing:" + acc, "expr() is not the type itself");
+         if (!denote_builtin_type(*at)) w.findings.fail("C13:not-self-describing:" + acc, "denote_builtin_type() does not hold");
+      }
+      if (!physically_same(r.type->type(), L.typename_type())) w.findings.fail("C13:type-not-typename:" + acc, "type() is not typename");
+      if (!(r.type->transfer() == impl::cxx_transfer()) || !is_natural(r.type->transfer())) w.findings.fail("C13:transfer:" + acc, "transfer() is not the natural C++ transfer");
+      if (!(r.type->linkage() == L.cxx_linkage())) w.findings.fail("C13:transfer:" + acc, "linkage() is not C++");
+      // route: identifier -> as-type (both identifier overloads), in this Lexicon (whatever the script did before) and in the fresh one
+      std::u8string sp(reinterpret_cast<const char8_t*>(r.spelling));
+      if (!physically_same(L.get_as_type(L.get_identifier(sp)), *r.type)) w.findings.fail("C13:route:identifier-as-type:" + acc, "get_as_type(get_identifier(word)) is a look-alike");
+      if (!physically_same(L.get_as_type(L.get_identifier(L.get_string(sp))), *r.type)) w.findings.fail("C13:route:identifier-as-type:" + acc, "get_as_type(get_identifier(String)) is a look-alike");
+      if (!physically_same(other.get_as_type(other.get_identifier(sp)), *r.type)) w.findings.fail("C13:route:identifier-as-type:" + acc, "look-alike in a second Lexicon");
+      if (id && !physically_same(L.get_identifier(sp), *id)) w.findings.fail("C13:route:identifier:" + acc, "get_identifier(spelling) is not the built-in's name");
+      w.findings.count("constant_checks");
+   }
+   // symbolic constants
+   struct Sym {
+      const char* accessor;
+      const Symbol* sym;
+      const Symbol* other_sym;
+      const char* spelling;
+      const Type* type;   // null: checked separately
+   };
+   const Sym syms[] = {{"false_value", &L.false_value(), &other.false_value(), "false", &L.bool_type()},
+                       {"true_value", &L.true_value(), &other.true_value(), "true", &L.bool_type()},
+                       {"nullptr_value", &L.nullptr_value(), &other.nullptr_value(), "nullptr", nullptr},
+                       {"default_value", &L.default_value(), &other.default_value(), "default", nullptr},
+                       {"delete_value", &L.delete_value(), &other.delete_value(), "delete", &L.void_type()}};
+   for (auto& s : syms) {
+      const std::string acc = s.accessor;
+      for (auto& t : syms)
+         if (&t != &s && t.sym == s.sym) w.findings.fail("C13:not-distinct:" + acc, std::string("same node as ") + t.accessor);
+      if (s.sym != s.other_sym) w.findings.fail("C13:not-process-wide:" + acc, "two Lexicon instances return different nodes");
+      auto id = util::view<Identifier>(s.sym->name());
+      if (!id || chars(id->string()) != s.spelling) w.findings.fail("C13:spelling:" + acc, std::string("not spelled ") + s.spelling);
+      if (s.type && !physically_same(s.sym->type(), *s.type)) w.findings.fail("C13:symbol-type:" + acc, "wrongly typed");
+      std::u8string sp(reinterpret_cast<const char8_t*>(s.spelling));
+      if (id && !physically_same(L.get_identifier(sp), *id)) w.findings.fail("C13:route:identifier:" + acc, "get_identifier(spelling) is not the constant's name");
+   }
+   {
+      auto dt = util::view<Decltype>(L.nullptr_value().type());
+      if (!dt || !physically_same(dt->expr(), L.nullptr_value())) w.findings.fail("C13:symbol-type:nullptr_value", "nullptr is not typed decltype(nullptr)");
+      if (!physically_same(L.get_decltype(L.nullptr_value()), L.nullptr_value().type())) w.findings.fail("C13:route:get_decltype(nullptr)", "get_decltype(nullptr) is a look-alike");
+      if (!physically_same(other.get_decltype(other.nullptr_value()), L.nullptr_value().type())) w.findings.fail("C13:route:get_decltype(nullptr)", "look-alike in a second Lexicon");
+      if (!physically_same(L.get_label(L.get_identifier(u8"default")), L.default_value())) w.findings.fail("C13:route:get_label(default)", "get_label(identifier default) is a look-alike");
+      if (!physically_same(other.get_label(other.get_identifier(u8"default")), L.default_value())) w.findings.fail("C13:route:get_label(default)", "look-alike in a second Lexicon");
+   }
+   // linkages
+   if (&L.c_linkage() == &L.cxx_linkage()) w.findings.fail("C13:not-distinct:c_linkage", "C and C++ linkage are one node");
+   if (&L.c_linkage() != &other.c_linkage() || &L.cxx_linkage() != &other.cxx_linkage()) w.findings.fail("C13:not-process-wide:linkage", "two Lexicon instances return different linkages");
+   if (spelled(L.c_linkage()) != "C") w.findings.fail("C13:spelling:c_linkage", "not spelled C");
+   if (spelled(L.cxx_linkage()) != "C++") w.findings.fail("C13:spelling:cxx_linkage", "not spelled C++");
+   if (&L.get_linkage(u8"C") != &L.c_linkage() || &L.get_linkage(L.get_string(u8"C")) != &L.c_linkage()) w.findings.fail("C13:route:get_linkage(C)", "a look-alike of the C linkage");
+   if (&L.get_linkage(u8"C++") != &L.cxx_linkage() || &L.get_linkage(L.get_string(u8"C++")) != &L.cxx_linkage()) w.findings.fail("C13:route:get_linkage(C++)", "a look-alike of the C++ linkage");
+   if (&other.get_linkage(u8"C") != &L.c_linkage()) w.findings.fail("C13:route:get_linkage(C)", "look-alike in a second Lexicon");
+}
+
 // ------------------------------------------------------------------ C05 -----
 void take_snapshot(World& w, Snapshot& s, std::size_t from)
 {
